@@ -104,9 +104,16 @@ var allFlagBits = []slog.Flags{slog.Ldate, slog.Ltime, slog.Lmicroseconds, slog.
 //
 // "other" differs from want in the bits of mask. An implementation that caches anything derived from the
 // flags has to stay correct on every one of these paths. Canon() puts the flags back with SetFlags.
+// FlagScopeHook, when set, is called inside every SaveFlagsAndMod scope SetFlagsVia opens (other flags are in force
+// there): a check puts the very questions there that it asks again under the final flags.
+var FlagScopeHook func()
+
 func SetFlagsVia(how int, want, mask slog.Flags) {
 	other := want ^ mask
 	prime := func() {
+		if FlagScopeHook != nil {
+			FlagScopeHook()
+		}
 		for _, f := range []string{"color", "logfmt", "json"} {
 			l := slog.New("flagscope")
 			switch f {
@@ -261,4 +268,50 @@ func GenDisturb() *rapid.Generator[int] {
 		}
 		return rapid.IntRange(0, 6).Draw(t, "disturbanceRecord")
 	})
+}
+
+// DisturbTwin prints the record a check is about (same severity, message and arguments) on scratch loggers of the
+// OTHER formats first, destination io.Discard: whatever the package remembers about a message, a key or a value
+// (an escaped form, a rendered fragment) was then computed for another format, and the pooled context last held
+// exactly these strings. format is the format of the record under test ("json", "logfmt", "color").
+func DisturbTwin(format string, sev slog.Level, msg string, args []any) {
+	for _, f := range []string{"logfmt", "json", "color"} {
+		if f == format {
+			continue
+		}
+		func() {
+			defer func() { _ = recover() }() // a defect here shows in the record that follows, through its own oracle
+			lg := slog.New("twin").SetWriter(io.Discard).SetErrorWriter(io.Discard).SetLevel(slog.AlwaysLevel)
+			switch f {
+			case "json":
+				lg.SetJSONMode(true)
+			case "logfmt":
+				lg.SetColorMode(false)
+			default:
+				lg.SetColorMode(true)
+			}
+			lg.LogAttrs(context.Background(), sev, msg, append([]any(nil), args...)...)
+		}()
+	}
+}
+
+// DisturbDupKeys prints, on a scratch logger of the given format, a record whose argument list repeats a key (the
+// documented way to override an attribute) among loose key/value pairs: whatever the package recycles of such a
+// list afterwards has seen the de-duplication.
+func DisturbDupKeys(format string) {
+	lg := slog.New("dupkeys").SetWriter(io.Discard).SetErrorWriter(io.Discard).SetLevel(slog.AlwaysLevel)
+	switch format {
+	case "json":
+		lg.SetJSONMode(true)
+	case "logfmt":
+		lg.SetColorMode(false)
+	default:
+		lg.SetColorMode(true)
+	}
+	func() {
+		defer func() { _ = recover() }()
+		lg.Info("a key given twice", "a", 1, "b", 2, "c", 3, "c", 4)
+		lg.Set("own", 1)
+		lg.Info("a call-site pair overriding a logger attribute", "own", 2, "z", 3)
+	}()
 }
